@@ -330,6 +330,44 @@ def run(ctx):
                      'renders every comment)', 1)
     _skipped_comments_kept(ctx, repo)
 
+    # ---- R12j: a converter built by the converter carries over every filter option
+    ctx.rule('R12j', 'where LatexNodes2Text builds another converter (for an included file, say) every option that '
+                     '__init__ takes from its flags is handed on: no filter (keep_comments, math_mode, ...) is reset to '
+                     'its default for part of the document', 0)
+    l2t_cls = m.cls('LatexNodes2Text')
+    init_ = m.methods('LatexNodes2Text').get('__init__')
+    opts = set()
+    if init_ is not None:
+        for c_ in iter_own(init_):
+            if isinstance(c_, ast.Call) and call_name(c_) == 'pop' and call_recv(c_) is not None and \
+                    unparse(call_recv(c_)) == (init_.args.kwarg.arg if init_.args.kwarg else 'flags') and c_.args \
+                    and isinstance(c_.args[0], ast.Constant):
+                st_ = enclosing_stmt(c_)
+                if isinstance(st_, ast.Assign) and any(is_self_attr(t_) for t_ in st_.targets):
+                    opts.add(c_.args[0].value)
+    n_nc = 0
+    for q_, f_ in sorted(m.functions.items()):
+        if not q_.startswith('LatexNodes2Text.'):
+            continue
+        for c_ in iter_own(f_):
+            if isinstance(c_, ast.Call) and unparse(c_.func) in ('self.__class__', 'LatexNodes2Text', 'type(self)'):
+                n_nc += 1
+                given = {k.arg for k in c_.keywords}
+                missing = sorted(o for o in opts if o not in given and None not in given)
+                ctx.decide('R12j', not missing, m, c_, '%s: nested converter receives every option' % q_,
+                           '%s builds another converter without handing on %s: for the text converted by it (an \\input '
+                           'file) those options fall back to their defaults -- with keep_comments set on the outer '
+                           'converter the comments of the included file are dropped' % (q_, missing),
+                           construct='%s: nested converter' % q_)
+    ctx.holds('R12j', m, None, '%d nested converter construction(s); options taken from flags: %s' % (n_nc, sorted(opts)),
+              construct='nested converter scan', trivial=True)
+    # ---- R12k (C14 M11): a re-declaration wins
+    ctx.rule('R12k', 'extended_with(): a construct re-declared (as discarded, say) in a later extension replaces the earlier '
+                     'declaration (C14 M11)', 3)
+    from . import c14 as _c14
+    cm_ = repo.mod(_c14.MODULE)
+    _c14.merge_precedence(ctx, 'R12k', cm_, cm_.methods(_c14.CLASS)['extended_with'])
+
     return 'other', (
         'Decides the gates through which comments, formula content and discarded constructs can '
         'reach the output: every return of the three gate functions is classified by the facts '
